@@ -25,13 +25,18 @@ pub struct S3Scenario {
     /// 1 = junk bytes, 2 = empty
     pub injections: Vec<(u32, u8, u8, u8)>,
     pub horizon_ms: u32,
+    /// messages with this tag carry a blob of `blob_len` bytes
+    #[serde(default)]
+    pub big_tag: Option<u8>,
+    #[serde(default)]
+    pub blob_len: u32,
     pub sched: SchedSpec,
 }
 
 #[derive(Clone, Debug, Serialize, PartialEq)]
 pub enum HKind {
     Start,
-    Msg { src: u64, tag: u8, who: Option<u64> },
+    Msg { src: u64, tag: u8, who: Option<u64>, blob_len: usize },
     Timeout(u8),
     Random(u8),
 }
@@ -57,6 +62,8 @@ pub struct S3Actor {
     pub ranges: Arc<Vec<(u32, u32)>>,
     pub log: Shared<Vec<HEvent>>,
     pub sched: Arc<Sched>,
+    pub big_tag: Option<u8>,
+    pub blob_len: u32,
 }
 
 fn id_u64(i: Id) -> u64 {
@@ -80,6 +87,7 @@ impl S3Actor {
                 RCmd::Send(d, m) => {
                     let d = self.fix(d);
                     let m = M { tag: m.tag, who: m.who.map(|w| self.fix(w)) };
+                    let m = Big { blob: blob_for(m.tag, self.big_tag, self.blob_len), m };
                     if let Ok(bytes) = ser(&m) {
                         ev.sends.push((id_u64(d), bytes));
                     } else {
@@ -117,7 +125,7 @@ impl S3Actor {
 }
 
 impl Actor for S3Actor {
-    type Msg = M;
+    type Msg = Big;
     type State = S;
     type Timer = u8;
     type Random = u8;
@@ -128,8 +136,10 @@ impl Actor for S3Actor {
         self.done(ev, &s);
         s
     }
-    fn on_msg(&self, id: Id, state: &mut Cow<S>, src: Id, msg: M, o: &mut Out<Self>) {
-        let mut ev = self.ev(HKind::Msg { src: id_u64(src), tag: msg.tag, who: msg.who.map(id_u64) }, Some(state));
+    fn on_msg(&self, id: Id, state: &mut Cow<S>, src: Id, msg: Big, o: &mut Out<Self>) {
+        let blob_len = msg.blob.len();
+        let msg = msg.m;
+        let mut ev = self.ev(HKind::Msg { src: id_u64(src), tag: msg.tag, who: msg.who.map(id_u64), blob_len }, Some(state));
         let e = self.table.eval_msg(id, state, src, &msg);
         if let Some(n) = e.new_state {
             *state = Cow::Owned(n);
@@ -157,16 +167,37 @@ impl Actor for S3Actor {
     }
 }
 
+/// What travels between the actors: a script message plus an opaque blob (so that datagrams of
+/// realistic and of large sizes occur). The codec is length-tolerant: the blob is "whatever
+/// follows the first newline".
+#[derive(Clone, Debug, PartialEq, Eq, Hash)]
+pub struct Big {
+    pub m: M,
+    pub blob: Vec<u8>,
+}
+
 /// Messages with this tag cannot be serialized (the codec is allowed to fail).
 pub const UNSERIALIZABLE_TAG: u8 = 3;
-fn ser(m: &M) -> Result<Vec<u8>, String> {
-    if m.tag == UNSERIALIZABLE_TAG {
+fn ser(b: &Big) -> Result<Vec<u8>, String> {
+    if b.m.tag == UNSERIALIZABLE_TAG {
         return Err("this message cannot be serialized".to_string());
     }
-    serde_json::to_vec(m).map_err(|e| e.to_string())
+    let mut v = serde_json::to_vec(&b.m).map_err(|e| e.to_string())?;
+    v.push(b'\n');
+    v.extend_from_slice(&b.blob);
+    Ok(v)
 }
-fn de(b: &[u8]) -> Result<M, String> {
-    serde_json::from_slice(b).map_err(|e| e.to_string())
+fn de(b: &[u8]) -> Result<Big, String> {
+    let cut = b.iter().position(|x| *x == b'\n').ok_or_else(|| "no header".to_string())?;
+    let m: M = serde_json::from_slice(&b[..cut]).map_err(|e| e.to_string())?;
+    Ok(Big { m, blob: b[cut + 1..].to_vec() })
+}
+fn blob_for(tag: u8, big_tag: Option<u8>, blob_len: u32) -> Vec<u8> {
+    if Some(tag) == big_tag {
+        vec![b'z'; blob_len as usize]
+    } else {
+        Vec::new()
+    }
 }
 
 pub fn gen_s3(seed: u64) -> S3Scenario {
@@ -206,6 +237,8 @@ pub fn gen_s3(seed: u64) -> S3Scenario {
         })
         .collect();
     let horizon_ms = *rng.pick(&[100u32, 300, 800, 2500]);
+    let big_tag = if rng.chance(1, 3) { Some(rng.below(g.tags as u64) as u8) } else { None };
+    let blob_len = *rng.pick(&[100u32, 1_400, 8_999, 9_001, 20_000, 60_000]);
     let injections = (0..rng.below(8)).map(|_| (rng.below(horizon_ms as u64) as u32, rng.below(n as u64) as u8, rng.below(3) as u8, rng.below(g.tags as u64) as u8)).collect();
     let mut sched = crate::s1::gen::gen_sched(&mut rng, 40_000);
     sched.block_size = 0;
@@ -222,7 +255,7 @@ pub fn gen_s3(seed: u64) -> S3Scenario {
         send_err_pct: *rng.pick(&[0u8, 0, 10]),
         recv_err_pct: *rng.pick(&[0u8, 0, 10]),
     };
-    S3Scenario { tables, addrs, timer_ranges, injections, horizon_ms, sched }
+    S3Scenario { tables, addrs, timer_ranges, injections, horizon_ms, big_tag, blob_len, sched }
 }
 
 pub struct S3Obs {
@@ -243,7 +276,7 @@ pub fn run_s3(sc: &S3Scenario) -> S3Obs {
         .tables
         .iter()
         .enumerate()
-        .map(|(i, t)| (ids[i], S3Actor { idx: i, table: Arc::new(t.clone()), ids: ids.clone(), ranges: ranges.clone(), log: log.clone(), sched: sched.clone() }))
+        .map(|(i, t)| (ids[i], S3Actor { idx: i, table: Arc::new(t.clone()), ids: ids.clone(), ranges: ranges.clone(), log: log.clone(), sched: sched.clone(), big_tag: sc.big_tag, blob_len: sc.blob_len }))
         .collect();
     let res = std::panic::catch_unwind(std::panic::AssertUnwindSafe(|| {
         // the runtime blocks forever: run it on its own simulation thread
@@ -261,7 +294,7 @@ pub fn run_s3(sc: &S3Scenario) -> S3Obs {
             }
             let to: SocketAddrV4 = ids[target as usize % ids.len()].into();
             let bytes = match kind {
-                0 => serde_json::to_vec(&M { tag, who: None }).unwrap(),
+                0 => ser(&Big { m: M { tag, who: None }, blob: blob_for(tag, sc.big_tag, sc.blob_len) }).unwrap_or_default(),
                 1 => vec![0xff, b'{', tag, 0x00, b'x'],
                 _ => vec![],
             };
@@ -314,8 +347,8 @@ pub fn judge(sc: &S3Scenario, obs: &S3Obs) -> (Vec<Violation>, Counters) {
         // index of unmatched decodable datagrams by (source, canonical payload)
         let mut by_key: BTreeMap<(u64, Vec<u8>), std::collections::VecDeque<usize>> = BTreeMap::new();
         for (i, r) in recvd.iter().enumerate() {
-            if let Ok(m) = de(&r.1) {
-                by_key.entry((r.0, serde_json::to_vec(&m).unwrap())).or_default().push_back(i);
+            if de(&r.1).is_ok() {
+                by_key.entry((r.0, r.1.clone())).or_default().push_back(i);
             }
         }
         // everything this socket sent, in order
@@ -339,10 +372,14 @@ pub fn judge(sc: &S3Scenario, obs: &S3Obs) -> (Vec<Violation>, Counters) {
             }
             prev_after = Some(e.after.clone());
             match &e.kind {
-                HKind::Msg { src, tag, who } => {
+                HKind::Msg { src, tag, who, blob_len } => {
                     c.inc("handler_on_msg");
                     // an unmatched datagram, delivered before the handler ran, with this content and source
-                    let want = serde_json::to_vec(&M { tag: *tag, who: who.map(|w| Id::from(SocketAddrV4::new(Ipv4Addr::from((w >> 16) as u32), (w & 0xffff) as u16))) }).unwrap();
+                    // what was handed over, re-encoded: it must be byte for byte a datagram that was
+                    // delivered to this socket (the codec is the identity on well-formed datagrams)
+                    let mut want = serde_json::to_vec(&M { tag: *tag, who: who.map(|w| Id::from(SocketAddrV4::new(Ipv4Addr::from((w >> 16) as u32), (w & 0xffff) as u16))) }).unwrap();
+                    want.push(b'\n');
+                    want.extend(std::iter::repeat(b'z').take(*blob_len));
                     let key = (*src, want.clone());
                     let hit = match by_key.get_mut(&key) {
                         Some(q) if q.front().map(|i| recvd[*i].2 <= e.t_enter).unwrap_or(false) => q.pop_front(),
